@@ -14,10 +14,10 @@ LEVEL = 'model_checking'
 RULE = ('Engine B: explicit-state BFS to closure over a real TBRMMDiagnostics object. Alphabet: x := X_i (5 | 8 series '
         'incl. a constant one that makes the regression fail and series of 8 / 16 points), x := None, y := Y_j (3 | 5 series of 8, 12 and 16 points; a control series of the wrong length must be rejected and leave the state unchanged), and one read per '
         'public derived quantity (corr, required_impact, pretestfit, bbtest, dwtest, aatest, corr_test, tests_ok, '
-        'tbrfit, estimate_required_impact), for 2 | 3 parameter objects (one with a window so short that the A/A test is '
+        'tbrfit and estimate_required_impact each with two argument values, x, y), for 2 | 3 parameter objects (one with a window so short that the A/A test is '
         'undefined). State = byte-exact fingerprint of ALL instance attributes + entry counts of the identity-keyed lru caches + model (id of current x, id of current y); successor states are obtained by REPLAYING the history on a fresh real object (no deep copies). '
         'Invariant in every state and for every read transition: the answer (value or exception type) equals the answer '
-        'of a freshly built object holding the model series. Vacuity guard: each verdict takes both values over the '
+        'of a freshly built object holding the model series. A second exploration (default parameters) mixes ordinary assignments with assignments made through ONE caller-owned buffer per role that is refilled in place and handed in again (aliasing between the array of the caller and the object; buffer contents are part of the state). Vacuity guard: each verdict takes both values over the '
         '(x,y) pairs (reported as verdict_values).')
 ASSUMPTIONS = ['series alphabet fixed (8, 12 and 16 points, integer valued); reads compare floats bit-exactly (same code, same inputs)',
                'no object is ever copied: every state is rebuilt by replaying its history on a fresh real object (stateless replay), '
@@ -41,15 +41,19 @@ X = {1: 2 * t + np.array([1, 0, 2, 0, 1, 1, 0, 2, 1, 0, 2, 0.]),
 PARS = {'default': dict(n_test=3, iroas=1.0), 'aa-undefined': dict(n_test=10, iroas=1.0),
         'strict': dict(n_test=2, iroas=2.0, min_corr=0.95, sig_level=0.95)}
 READS = ['corr', 'required_impact', 'pretestfit', 'bbtest', 'dwtest', 'aatest', 'corr_test', 'tests_ok',
-         'tbrfit', 'estimate_required_impact', 'x', 'y']
+         'tbrfit', 'estimate_required_impact', 'x', 'y', 'tbrfit@12,18', 'estimate_required_impact@0.5']
 
 
 def read(d, q):
     try:
         if q == 'tbrfit':
             return fp(d.tbrfit(10.0, 20.0))
+        if q == 'tbrfit@12,18':
+            return fp(d.tbrfit(12.0, 18.0))
         if q == 'estimate_required_impact':
             return fp(d.estimate_required_impact(0.9))
+        if q == 'estimate_required_impact@0.5':      # a second argument value: argument-keyed caches hold several entries
+            return fp(d.estimate_required_impact(0.5))
         return fp(getattr(d, q))
     except Exception as e:
         return ('EXC', type(e).__name__)
@@ -64,7 +68,11 @@ def canon(d):
     # instance attributes + the number of entries each identity-keyed cache holds for this history (the caches are
     # cleared before every replay, so the count is a function of the history alone)
     hidden = tuple(f.cache_info().currsize for f in lru_methods())
-    return (tuple((k, fp(v)) for k, v in sorted(vars(d).items()) if k != '_par'), hidden)
+    bufs = tuple((k, fp(v)) for k, v in sorted(BUF.items()))     # contents of the caller's buffers (part of the state)
+    return (tuple((k, fp(v)) for k, v in sorted(vars(d).items()) if k != '_par'), hidden, bufs)
+
+
+BUF = {}      # the caller's reusable work buffers (one per role), re-created by the factory for every replayed history
 
 
 def alphabet(tier):
@@ -74,9 +82,21 @@ def alphabet(tier):
     return xs, ys, ops
 
 
-def explore_par(pname, tier, jobs=8):
+ALIAS_READS = ['corr', 'required_impact', 'pretestfit', 'aatest', 'tests_ok', 'tbrfit', 'x', 'y']
+
+
+def alias_alphabet(tier):
+    """Second, smaller exploration: the same assignments made through ONE caller-owned buffer per role that is refilled in
+    place and handed in again (aliasing between the caller's array and the object), mixed with ordinary assignments."""
+    xs, ys = [1, 6, 2], [1, 2]
+    ops = ([('setx_buf', i) for i in (1, 6)] + [('sety_buf', j) for j in (1, 2)] + [('setx', 2), ('clearx',), ('sety', 2)]
+           + [('read', q) for q in (ALIAS_READS if tier == 'quick' else READS)])
+    return xs, ys, ops
+
+
+def explore_par(pname, tier, jobs=8, alias=False):
     par = TBRMMDesignParameters(**PARS[pname])
-    xs, ys, ops = alphabet(tier)
+    xs, ys, ops = alias_alphabet(tier) if alias else alphabet(tier)
     fresh_cache = {}
     verdict_values = {q: set() for q in ('corr_test', 'tests_ok', 'aatest', 'bbtest', 'dwtest')}
 
@@ -113,6 +133,22 @@ def explore_par(pname, tier, jobs=8):
         elif op[0] == 'sety':
             d.y = Y[op[1]]
             model = (None, op[1])
+        elif op[0] == 'setx_buf':
+            buf = BUF.setdefault('x', np.zeros(n))
+            buf[:] = X[op[1]]                  # refill the caller's buffer in place ...
+            try:
+                d.x = buf                      # ... and hand the SAME array object in again
+                model = (op[1], model[1])
+                obs = 'set'
+            except ValueError:
+                obs = 'ValueError'
+                if len(Y[model[1]]) == n:
+                    viol.append(('C08:x-length-check', 'x := buffer of %d points rejected with y = Y%d' % (n, model[1])))
+        elif op[0] == 'sety_buf':
+            buf = BUF.setdefault('y', np.zeros(n))
+            buf[:] = Y[op[1]]
+            d.y = buf
+            model = (None, op[1])
         else:
             obs = read(d, op[1])
             exp = fresh(model, op[1])
@@ -122,6 +158,7 @@ def explore_par(pname, tier, jobs=8):
         return model, viol, obs
 
     def factory():
+        BUF.clear()
         for f in lru_methods():
             f.cache_clear()
         return TBRMMDiagnostics(Y[1], par), (None, 1)
@@ -135,7 +172,7 @@ def explore_par(pname, tier, jobs=8):
                 for q in verdict_values:
                     fresh((xi, yj), q)
     r['verdict_values'] = {q: len(v) for q, v in verdict_values.items()}
-    r['pname'] = pname
+    r['pname'] = pname + ('+caller-buffers' if alias else '')
     return r
 
 
@@ -143,6 +180,7 @@ def run(tier, seed, jobs):
     res = engine.Result()
     pnames = ['default', 'aa-undefined'] if tier == 'quick' else ['default', 'aa-undefined', 'strict']
     parts = [explore_par(p, tier, jobs) for p in pnames]
+    parts.append(explore_par('default', tier, jobs, alias=True))
     states = sum(r['states'] for r in parts)
     trans = sum(r['transitions'] for r in parts)
     for r in parts:
@@ -162,10 +200,11 @@ def run(tier, seed, jobs):
 
 
 def replay(case):
-    par = TBRMMDesignParameters(**PARS[case['parameters']])
+    par = TBRMMDesignParameters(**PARS[case['parameters'].split('+')[0]])
     d = TBRMMDiagnostics(Y[1], par)
     model = (None, 1)
     out = []
+    BUF.clear()
     hist = [tuple(o) for o in case['history']]
     for i, op in enumerate(hist):
         last = i == len(hist) - 1
@@ -180,6 +219,19 @@ def replay(case):
             model = (None, model[1])
         elif op[0] == 'sety':
             d.y = Y[op[1]]
+            model = (None, op[1])
+        elif op[0] == 'setx_buf':
+            buf = BUF.setdefault('x', np.zeros(n))
+            buf[:] = X[op[1]]
+            try:
+                d.x = buf
+                model = (op[1], model[1])
+            except ValueError:
+                pass
+        elif op[0] == 'sety_buf':
+            buf = BUF.setdefault('y', np.zeros(n))
+            buf[:] = Y[op[1]]
+            d.y = buf
             model = (None, op[1])
         else:
             obs = read(d, op[1])
@@ -202,6 +254,7 @@ def replay(case):
 def explain(case):
     return {'series': {'X': {k: v.tolist() for k, v in X.items()}, 'Y': {k: v.tolist() for k, v in Y.items()}},
             'parameters': PARS[case['parameters']],
+            'buffers': "('setx_buf', i): buf_x[:] = X[i]; d.x = buf_x  (one reusable array per role); ('sety_buf', j) likewise",
             'python': "d = TBRMMDiagnostics(Y[1], TBRMMDesignParameters(**parameters)); apply history: ('setx',i): d.x = X[i]; "
                       "('clearx',): d.x = None; ('sety',j): d.y = Y[j]; ('read',q): getattr(d,q); compare the last read with "
                       "the same read on a fresh TBRMMDiagnostics holding the current series"}
